@@ -720,6 +720,17 @@ package erpc
 //@   flags libframe
 //@   modifies allof(type(callCmd)), waitgroups, channels, mapviews, ghost.callSweeps
 //@   ghostset ghost.callSweeps = old(ghost.callSweeps) + 1
+//@   ensures[waits-are-history] waited(addr(s.graceCtxWaitGroup)) == old(waited(addr(s.graceCtxWaitGroup)))
+// C08: on a disconnect the connection is released only after the running handlers
+// have been waited for (their replies are written first), and never while the
+// local side is closing gracefully (closeLocked releases it after its own waits)
+//@ trusted socket.(*socket).Close in erpc.(*session).readDisconnected
+//@   params sock
+//@   flags libframe
+//@   modifies allof(type(socket.socket)), allelems(type(byte)), lockset
+//@   requires[handlers-drained-before-release] @C08 waited(addr(s.graceCtxWaitGroup))
+//@   requires[not-while-closing-gracefully] @C08 status != statusActiveClosing
+//@   ensures[locks-restored] sameLocks()
 //@ func (*session).readDisconnected
 //@   property C02 C08 C13 C07
 //@   ensures[session-ends-when-redial-gives-up] @C13 @C07 old(s.status) != statusPassiveClosed && old(s.status) != statusActiveClosed && old(s.status) != statusPassiveClosing && old(s.status) != statusActiveClosing && !ghost.lastRedialOK ==> s.status == statusPassiveClosed && s.didCloseNotify == 1 && ghost.postDisconnectRuns == old(ghost.postDisconnectRuns) + 1
@@ -936,6 +947,18 @@ package erpc
 //@   modifies allof(type(socket.socket)), allelems(type(byte)), lockset
 //@   requires[handlers-and-calls-drained] @C08 waited(addr(s.graceCtxWaitGroup)) && waited(addr(s.graceCallCmdWaitGroup))
 //@   ensures[locks-restored] sameLocks()
+// C08: the reader keeps going (status "closing actively") until the handlers and
+// the calls issued before Close have been waited for: only then may the session
+// be marked closed, which stops the reader (goonRead)
+//@ func (*session).changeStatus
+//@   property C07 C08
+//@   modifies s.status
+//@   ensures[status-stored] s.status == stat
+//@ trusted (*session).changeStatus in erpc.(*session).closeLocked
+//@   flags libframe
+//@   requires[reader-kept-until-handlers-and-calls-drained] @C08 stat == statusActiveClosed ==> waited(addr(s.graceCtxWaitGroup)) && waited(addr(s.graceCallCmdWaitGroup))
+//@   modifies s.status
+//@   ensures[status-stored] s.status == stat
 //@ func (*session).closeLocked
 //@   property C07 C08
 //@   flags libframe frame-unchecked seed-elems
@@ -962,6 +985,18 @@ package erpc
 //@   flags seed-elems
 //@   modifies nothing
 //@   ensures[reads-while-ok-or-closing-actively] result <==> (s.status == statusOk || s.status == statusActiveClosing)
+
+// C07: healthy only while established - or, for a dialled session that owns a
+// redial function, while passively closed (the next call redials). A session that
+// was closed locally, or that was disconnected and has no redial function of its
+// own (every accepted session), is unhealthy.
+//@ func (*session).Health
+//@   property C07
+//@   modifies nothing
+//@   ensures[healthy-while-established] s.status == statusOk ==> result
+//@   ensures[unhealthy-after-local-close] s.status == statusActiveClosing || s.status == statusActiveClosed ==> !result
+//@   ensures[unhealthy-after-disconnect-without-redial] s.redialForClientLocked == nil && s.status != statusOk ==> !result
+//@   ensures[healthy-only-if-ok-or-redialable] result ==> s.status == statusOk || s.status == statusPassiveClosed
 
 // status transitions by compare-and-swap: moves to `to` iff the current status is
 // one of the listed source states, otherwise leaves it alone
@@ -1036,12 +1071,14 @@ package erpc
 //@   flags libframe may-panic
 //@   modifies allof(type(session)), allof(type(socket.socket)), lockset, mapviews, ghost.acceptVetoed
 //@   ghostset ghost.acceptVetoed = old(ghost.acceptVetoed) || !statOK(result)
+//@ ghost global acceptRuns int
 //@ func (*pluginSingleContainer).postAccept
 //@   property C16
 //@   flags recover-scope libframe frame-unchecked
 //@   requires @C16 sentinelsIntact()
-//@   modifies allof(type(session)), allof(type(socket.socket)), lockset, mapviews, ghost.lastAcceptOK, ghost.acceptVetoed
+//@   modifies allof(type(session)), allof(type(socket.socket)), lockset, mapviews, ghost.lastAcceptOK, ghost.acceptVetoed, ghost.acceptRuns
 //@   ghostset ghost.lastAcceptOK = statOK(result)
+//@   ghostset ghost.acceptRuns = old(ghost.acceptRuns) + 1
 //@   ensures[a-veto-rejects] @C16 statOK(result) ==> ghost.acceptVetoed == old(ghost.acceptVetoed)
 //@   ensures[a-panicking-hook-rejects]!! @C16 !statOK(result)
 //@   loop 0: invariant[no-veto-so-far] @C16 ghost.acceptVetoed == old(ghost.acceptVetoed)
@@ -1056,16 +1093,18 @@ package erpc
 //@   property C16 C07
 //@   flags libframe frame-unchecked
 //@   requires p != nil && p.pluginContainer != nil && p.sessHub != nil && sentinelsIntact()
-//@   modifies ghost.acceptVetoed, allof(type(session)), allof(type(socket.socket)), allof(type(callCmd)), lockset, waitgroups, channels, mapviews, ghost.sessionCloses, ghost.postDisconnectRuns, ghost.readerRuns, ghost.lastAcceptOK, ghost.hubSets
+//@   modifies ghost.acceptVetoed, allof(type(session)), allof(type(socket.socket)), allof(type(callCmd)), lockset, waitgroups, channels, mapviews, ghost.sessionCloses, ghost.postDisconnectRuns, ghost.readerRuns, ghost.lastAcceptOK, ghost.hubSets, ghost.acceptRuns
 //@   ensures[read-only-if-admitted] ghost.readerRuns > old(ghost.readerRuns) ==> ghost.lastAcceptOK
-//@   ensures[rejected-connection-closed-as-session] @C07 !ghost.lastAcceptOK && ghost.sessionCloses == old(ghost.sessionCloses) ==> ghost.readerRuns == old(ghost.readerRuns)
+//@   ensures[rejected-connection-never-read] @C07 !ghost.lastAcceptOK && ghost.sessionCloses == old(ghost.sessionCloses) ==> ghost.readerRuns == old(ghost.readerRuns)
+//@   ensures[rejected-connection-closed-as-session] @C07 ghost.acceptRuns == old(ghost.acceptRuns) + 1 && !ghost.lastAcceptOK ==> ghost.sessionCloses == old(ghost.sessionCloses) + 1
+//@   ensures[hooks-run-at-most-once] @C07 ghost.acceptRuns == old(ghost.acceptRuns) || ghost.acceptRuns == old(ghost.acceptRuns) + 1
 //@ func (*peer).ServeConn
 //@   property C07 C16
 //@   ensures[rejected-connection-never-read] @C16 !statOK(result.1) ==> ghost.anywayGos == old(ghost.anywayGos)
 //@   ensures[admitted-connection-read-once] @C16 statOK(result.1) ==> ghost.anywayGos == old(ghost.anywayGos) + 1 && ghost.lastAcceptOK
 //@   flags libframe frame-unchecked
 //@   requires p.pluginContainer != nil && p.sessHub != nil && sentinelsIntact()
-//@   modifies allof(type(session)), allof(type(socket.socket)), lockset, waitgroups, channels, mapviews, ghost.acceptVetoed, ghost.sessionCloses, ghost.postDisconnectRuns, ghost.handleScheduled, ghost.anywayGos, ghost.lastAcceptOK, ghost.hubSets
+//@   modifies allof(type(session)), allof(type(socket.socket)), lockset, waitgroups, channels, mapviews, ghost.acceptVetoed, ghost.sessionCloses, ghost.postDisconnectRuns, ghost.handleScheduled, ghost.anywayGos, ghost.lastAcceptOK, ghost.hubSets, ghost.acceptRuns
 //@   ensures[rejected-connection-closed-as-session] !statOK(result.1) && statCode(result.1) != CodeWrongConn ==> ghost.sessionCloses == old(ghost.sessionCloses) + 1
 //@   ensures[accepted-session-returned] statOK(result.1) ==> result.0 != nil
 
